@@ -167,6 +167,16 @@ def pristine():
     return _PRISTINE
 
 
+def _fresh_idgen():
+    i = 1
+    while 1:
+        yield 'a%.10d' % i
+        i += 1
+
+
 def reset():
-    """Restore interpreter-wide state to the pristine snapshot (call between cases)."""
+    """Restore interpreter-wide state to the pristine snapshot (call between cases); the generator of automatic
+    identifiers is restarted too, so that two runs of the same case spell generated ids identically."""
+    import plasTeX
+    plasTeX.idgen = _fresh_idgen()
     return pristine().restore()
